@@ -424,15 +424,58 @@ def map_session(col, binpath, rng, tag, scratch):
                 want = groups[a_][j] * 1.5
                 if abs(groups[b_][j] - want) > 1.5 + 0.06 * want:
                     col.add("C18", f"C18|map_opposite_sides_inconsistent|{a_}{b_}", f"{a_} at {MULT[a_][j] * d} km is {groups[a_][j]} cells from the centre, {b_} at {MULT[b_][j] * d} km is {groups[b_][j]} cells (expected about {want:.1f})", inp2)
-        # zoom out one step: offsets shrink, directions stay; reset: offsets return
-        sess.key("-")
+        # zooming changes the scale only: after three zoom-outs all eight aircraft are still there,
+        # in the same directions and proportions, nearer to the centre; after five zoom-ins (net two
+        # in) whoever is still on the canvas is in its direction, farther out; reset: the first picture
+        def measure():
+            cs = sess.p.screen.cells
+            bl = [(r, c) for r in range(top + 1, bottom) for c in range(left + 1, right) if cs[r][c][1] == 4 and BRAILLE(cs[r][c][0])]
+            g = {"N": [], "E": [], "S": [], "W": []}
+            st = []
+            for r, c in bl:
+                dr, dc = r - cr, c - cc
+                if abs(dc) <= 1 and dr < 0:
+                    g["N"].append(-dr)
+                elif abs(dc) <= 1 and dr > 0:
+                    g["S"].append(dr)
+                elif abs(dr) <= 1 and dc > 0:
+                    g["E"].append(dc)
+                elif abs(dr) <= 1 and dc < 0:
+                    g["W"].append(-dc)
+                else:
+                    st.append((dr, dc))
+            return {k: sorted(v) for k, v in g.items()}, st, sorted(bl)
+        for _ in range(3):
+            sess.key("-")
+            sess.p.pump(0.05)
         sess.settle(0.5)
+        g_out, stray_out, _ = measure()
+        col.count("zoom_stages_checked")
+        inp3 = dict(inp2, after="3 zoom-outs", offsets_now=g_out, stray_now=stray_out[:8])
+        if stray_out or any(len(v) != 2 for v in g_out.values()):
+            col.add("C18", "C18|map_direction|zoomed_out", f"after three zoom-outs the eight aircraft are drawn at offsets {g_out}, stray dots {stray_out[:6]} (before: {detail})", inp3)
+        else:
+            for k, v in g_out.items():
+                if abs(v[1] - 2 * v[0]) > 2 or v[0] > groups[k][0] or v[1] > groups[k][1] or v[1] < 0.55 * groups[k][1] - 1:
+                    col.add("C18", f"C18|map_not_proportional|zoomed_out|{k}", f"{k}: offsets {v} cells after three zoom-outs (factor 1/1.331), {groups[k]} before", inp3)
+        for _ in range(5):
+            sess.key("+")
+            sess.p.pump(0.05)
+        sess.settle(0.5)
+        g_in, stray_in, _ = measure()
+        col.count("zoom_stages_checked")
+        inp4 = dict(inp2, after="3 zoom-outs, 5 zoom-ins", offsets_now=g_in, stray_now=stray_in[:8])
+        if stray_in or any(len(v) < 1 or len(v) > 2 for v in g_in.values()):
+            col.add("C18", "C18|map_direction|zoomed_in", f"after zooming in (net two steps) the aircraft are drawn at offsets {g_in}, stray dots {stray_in[:6]} (before: {detail}); the nearer aircraft of each side must still be on the canvas", inp4)
+        else:
+            for k, v in g_in.items():
+                if v[0] < groups[k][0] or v[0] > 1.21 * groups[k][0] + 2:
+                    col.add("C18", f"C18|map_not_proportional|zoomed_in|{k}", f"{k}: nearest offset {v[0]} cells after zooming in by 1.21, {groups[k][0]} before", inp4)
         sess.key("Enter")
         sess.settle(0.5)
-        cells = sess.p.screen.cells
-        blue2 = sorted((r, c) for r in range(top + 1, bottom) for c in range(left + 1, right) if cells[r][c][1] == 4 and BRAILLE(cells[r][c][0]))
+        _, _, blue2 = measure()
         if blue2 != sorted(blue):
-            col.add("C18", "C18|map_reset_does_not_restore_view", f"aircraft cells after zoom-out + reset {blue2[:8]} differ from before {sorted(blue)[:8]}", inp2)
+            col.add("C18", "C18|map_reset_does_not_restore_view", f"aircraft cells after zooming and reset {blue2[:8]} differ from before {sorted(blue)[:8]}", inp2)
     except Inconclusive:
         # a session that cannot be completed because radar is gone is a finding, not a shrug
         if sess.p.alive():
@@ -461,7 +504,7 @@ def main(a, lcol, col, run_all, scratch, START):
     ev = col.counters.get("rows_compared", 0) + col.counters.get("stats_compared", 0) + col.counters.get("view_control_sequences", 0) + col.counters.get("map_sessions", 0) * 8 + col.counters.get("expiry_sessions", 0)
     distinct = col.counters.get("data_sessions", 0) + col.counters.get("long_count_sessions", 0) + col.counters.get("map_sessions", 0) + col.counters.get("expiry_sessions", 0)
     col.sample({"data_session": "20 aircraft in four quadrants with identification/velocity/position (some one parity only); all 10 columns of every Airplanes row == library run on the same lines; tab title; Stats totals; 1-40 view-control events then rows unchanged"})
-    col.sample({"map_session": "8 aircraft due N/E/S/W at d and 2d km; blue braille cells relative to the axis crossing: direction, 2:1 proportion, E/W and N/S symmetry, receiver at the canvas centre, zoom-out + reset restores the cells"})
+    col.sample({"map_session": "8 aircraft due N/E/S/W at d and 2d km; blue braille cells relative to the axis crossing: direction, 2:1 proportion, E/W and N/S symmetry, receiver at the canvas centre, the same picture scaled after three zoom-outs and after five zoom-ins, reset restores the cells"})
     return vlib.finish(col, "C18", a.tier, a.seed, "exploration",
         "radar on a 200x60 pseudo-terminal fed by a scripted server: (a) data sessions: the reconstructed Airplanes table (address, callsign, lat, lon, heading, altitude, rate, speed, distance, message count; blanks without a position) == rows computed by the repository's library on the same recorded lines (vmon feedsim), tab title count, Stats 'Total'/'Most'; then 1-40 zoom/pan/reset/drag/scroll events and the table again; (b) expiry sessions (--filter-time 2): aircraft expire and return, Total = number of (re-)adds, Most = largest simultaneous count; (c) long sessions: one aircraft heard 1003+ (quick) / 10007+ (thorough) times, Msgs column exact; (d) map sessions: aircraft due N/E/S/W at d and 2d: direction, proportion, symmetry, centre, reset; distinct_nontrivial = sessions (each a distinct seeded feed)",
         ["screen reconstruction by a minimal VT model; aircraft dots are the blue (38;5;4) braille cells with --disable-heading", "one-cell tolerance for direction/symmetry, two cells for the 2:1 proportion"],
